@@ -484,7 +484,11 @@ pub fn alphabet(tier: Tier) -> Vec<ROp> {
 }
 
 pub fn run_c11(ctx: &Ctx) -> i32 {
-    let (coverage, assumptions) = explore_registry(ctx, ctx.tier.pick(4, 5));
+    let (mut coverage, assumptions) = explore_registry(ctx, ctx.tier.pick(4, 5));
+    let coll = colliding_generators(ctx, ctx.tier.pick(4, 6));
+    coverage["transitions"] = json!(coverage["transitions"].as_u64().unwrap_or(0) + coll["steps"].as_u64().unwrap_or(0));
+    coverage["evaluations"] = json!(coverage["evaluations"].as_u64().unwrap_or(0) + coll["steps"].as_u64().unwrap_or(0));
+    coverage["colliding_address_generator"] = coll;
     ctx.finish(coverage, assumptions)
 }
 
@@ -622,6 +626,211 @@ pub fn explore_registry(ctx: &Ctx, max_depth: usize) -> (Value, Vec<String>) {
         "samples": samples,
     });
     (coverage, vec!["whether an empty label is accepted is not asserted".into(), "code ids above 13 and store_code at u64::MAX are outside".into(), "who may migrate a contract that has no admin is C12's business and not asserted here".into()])
+}
+
+// ---------------------------------------------------------------------------------------------
+// user-supplied address generators whose addresses collide
+
+thread_local! {
+    /// the address the generator handed out last (None: it was not asked)
+    static LAST_GENERATED: std::cell::RefCell<Option<String>> = const { std::cell::RefCell::new(None) };
+}
+
+/// Hands out addresses from a pool of two (unsalted) and of two, one shared with the first pool
+/// (salted): a generator a user may plug in, under which "an address no existing contract has"
+/// is not automatic.
+struct PoolAddresses {
+    pool: [String; 3],
+}
+
+impl cw_multi_test::AddressGenerator for PoolAddresses {
+    fn contract_address(&self, _api: &dyn cosmwasm_std::Api, _storage: &mut dyn cosmwasm_std::Storage, code_id: u64, instance_id: u64) -> cw_multi_test::error::AnyResult<Addr> {
+        let a = self.pool[((code_id + instance_id) % 2) as usize].clone();
+        LAST_GENERATED.with(|l| *l.borrow_mut() = Some(a.clone()));
+        Ok(Addr::unchecked(a))
+    }
+    fn predictable_contract_address(&self, _api: &dyn cosmwasm_std::Api, _storage: &mut dyn cosmwasm_std::Storage, _code_id: u64, _instance_id: u64, _checksum: &[u8], _creator: &cosmwasm_std::CanonicalAddr, salt: &[u8]) -> cw_multi_test::error::AnyResult<Addr> {
+        let a = self.pool[1 + (salt[0] % 2) as usize].clone();
+        LAST_GENERATED.with(|l| *l.borrow_mut() = Some(a.clone()));
+        Ok(Addr::unchecked(a))
+    }
+}
+
+#[derive(Clone, Debug)]
+enum POp {
+    /// code, creator, variant (label / admin), init ok
+    Inst(u64, u8, u8, bool),
+    /// code, salt byte
+    Inst2(u64, u8),
+    /// instantiate as a sub-message of the first live contract's sudo (Never: failure aborts)
+    SubInst(u64),
+}
+
+/// Every sequence of instantiations up to `depth` on an App whose address generator hands out
+/// colliding addresses. Oracle (the statement's own words): a successful instantiation creates a
+/// contract at an address no existing contract has, its record is what was supplied; a rejected
+/// one leaves everything unchanged; and nothing that existed before (records and storage of the
+/// live contracts) is ever overwritten by an instantiation.
+fn colliding_generators(ctx: &Ctx, depth: usize) -> Value {
+    let nm = names();
+    let api = MockApi::default();
+    let pool = [api.addr_make("pool0").into_string(), api.addr_make("pool1").into_string(), api.addr_make("pool2").into_string()];
+    let build = |storage: &SnapStorage| -> RApp {
+        let mut app: RApp = AppBuilder::new()
+            .with_storage(SnapStorage::new())
+            .with_wasm(WasmKeeper::new().with_address_generator(PoolAddresses { pool: pool.clone() }))
+            .build(cw_multi_test::no_init);
+        app.store_code(Box::new(Puppet { tag: 1 }));
+        app.store_code(Box::new(Puppet { tag: 2 }));
+        *app.storage_mut() = storage.clone();
+        app
+    };
+    let mut alpha = vec![];
+    for code in [1u64, 2] {
+        alpha.push(POp::Inst(code, 0, 0, true));
+        alpha.push(POp::Inst(code, 1, 1, true));
+        alpha.push(POp::Inst2(code, 0));
+    }
+    alpha.push(POp::Inst2(1, 1));
+    alpha.push(POp::Inst(1, 0, 0, false));
+    alpha.push(POp::SubInst(2));
+    type Live = BTreeMap<String, (u64, String, Option<String>, String)>;
+    struct Node2 {
+        storage: SnapStorage,
+        live: Live,
+        order: Vec<String>,
+        path: Vec<String>,
+    }
+    let mut frontier = vec![Node2 { storage: SnapStorage::new(), live: BTreeMap::new(), order: vec![], path: vec![] }];
+    let (mut sequences, mut steps, mut collisions, mut accepted) = (0u64, 0u64, 0u64, 0u64);
+    let mut distinct = BTreeSet::new();
+    for _ in 0..depth {
+        let mut next = vec![];
+        for st in &frontier {
+            for op in &alpha {
+                let mut app = build(&st.storage);
+                let mut path = st.path.clone();
+                path.push(format!("{:?}", op));
+                let case = |what: &str, extra: Value| json!({"engine": "registry-colliding-generator", "history": path, "what": what, "detail": extra});
+                let before = app.storage().data.clone();
+                LAST_GENERATED.with(|l| *l.borrow_mut() = None);
+                let (code, creator, admin, label) = match op {
+                    POp::Inst(code, c, v, _) => (*code, nm.creators[*c as usize].clone(), if *v == 0 { None } else { Some(nm.creators[0].clone()) }, if *v == 0 { "l" } else { "m" }),
+                    POp::Inst2(code, _) => (*code, nm.creators[0].clone(), None, "s"),
+                    POp::SubInst(code) => (*code, st.order.first().cloned().unwrap_or_default(), None, "sub"),
+                };
+                let run: Result<Result<Option<String>, String>, String> = catch(|| match op {
+                    POp::Inst(code, c, _, ok) => {
+                        set_script(init_program(*ok));
+                        app.instantiate_contract(*code, Addr::unchecked(&nm.creators[*c as usize]), &NodeMsg { n: 0 }, &[], label, admin.clone()).map(|a| Some(a.into_string())).map_err(|e| format!("{:#}", e))
+                    }
+                    POp::Inst2(code, salt) => {
+                        set_script(init_program(true));
+                        app.instantiate2_contract(*code, Addr::unchecked(&nm.creators[0]), &NodeMsg { n: 0 }, &[], label, None, Binary::from(vec![*salt])).map(|a| Some(a.into_string())).map_err(|e| format!("{:#}", e))
+                    }
+                    POp::SubInst(code) => {
+                        let Some(host) = st.order.first() else { return Err("no host contract".into()) };
+                        let prog = Program {
+                            entry: Entry::WasmSudo { contract: String::new() },
+                            root: 0,
+                            nodes: vec![
+                                Node { subs: vec![Sub { id: 1, payload: vec![], reply_on: Mode::Never, msg: Msg::Instantiate { code: *code, funds: vec![], label: "sub".into(), admin: None, node: 1 }, reply: None }], ..Default::default() },
+                                Node { writes: vec![WriteOp::Set(b"init".to_vec(), b"1".to_vec())], ..Default::default() },
+                            ],
+                        };
+                        set_script(Rc::new(prog));
+                        app.wasm_sudo(Addr::unchecked(host), &NodeMsg { n: 0 }).map(|_| None).map_err(|e| format!("{:#}", e))
+                    }
+                });
+                steps += 1;
+                let target = LAST_GENERATED.with(|l| l.borrow().clone());
+                let run = match run {
+                    Err(p) => {
+                        ctx.violation("c11:panic:custom-generator", case("panic", json!({"panic": p})));
+                        continue;
+                    }
+                    Ok(r) => r,
+                };
+                let occupied = target.as_ref().map_or(false, |t| st.live.contains_key(t));
+                if occupied {
+                    collisions += 1;
+                }
+                let init_ok = !matches!(op, POp::Inst(_, _, _, false));
+                let host_missing = matches!(op, POp::SubInst(_)) && st.order.is_empty();
+                let after = app.storage().data.clone();
+                match &run {
+                    Ok(ret) => {
+                        accepted += 1;
+                        let Some(t) = target.clone() else {
+                            ctx.violation("c11:custom-generator-not-asked", case("an instantiation succeeded without asking the configured address generator", json!({})));
+                            continue;
+                        };
+                        if occupied {
+                            ctx.violation("c11:address-reused:custom-generator", case("instantiation succeeded at the address of an existing contract", json!({"address": t, "existing": format!("{:?}", st.live.get(&t))})));
+                            continue;
+                        }
+                        if !init_ok {
+                            ctx.violation("c11:invalid-instantiate-accepted:custom-generator", case("instantiate with failing init succeeded", json!({})));
+                            continue;
+                        }
+                        if let Some(a) = ret {
+                            if *a != t {
+                                ctx.violation("c11:returned-address-differs-from-generated", case("returned address is not the generated one", json!({"returned": a, "generated": t})));
+                            }
+                        }
+                        // nothing that existed is overwritten
+                        let overwritten: Vec<String> = before.iter().filter(|(k, v)| after.get(*k) != Some(*v)).map(|(k, _)| String::from_utf8_lossy(k).into_owned()).collect();
+                        if !overwritten.is_empty() {
+                            ctx.violation("c11:instantiation-overwrote-existing-state", case("keys that existed before the instantiation changed", json!({"keys": overwritten})));
+                        }
+                        match app.contract_data(&Addr::unchecked(&t)) {
+                            Ok(cd) => {
+                                let got = (cd.code_id, cd.creator.to_string(), cd.admin.map(|a| a.to_string()), cd.label.clone());
+                                let want = (code, creator.clone(), admin.clone(), label.to_string());
+                                if got != want {
+                                    ctx.violation("c11:contract-record-differs:custom-generator", case("recorded code id / creator / admin / label differ from what was supplied", json!({"got": format!("{:?}", got), "want": format!("{:?}", want)})));
+                                }
+                            }
+                            Err(e) => ctx.violation("c11:contract-record-missing:custom-generator", case("no contract record at the new address", json!({"error": e.to_string()}))),
+                        }
+                        let mut live = st.live.clone();
+                        live.insert(t.clone(), (code, creator.clone(), admin.clone(), label.to_string()));
+                        let mut order = st.order.clone();
+                        order.push(t);
+                        distinct.insert(hash64(&after, 9));
+                        next.push(Node2 { storage: app.storage().clone(), live, order, path: path.clone() });
+                    }
+                    Err(e) => {
+                        if after != before {
+                            ctx.violation("c11:rejected-op-changed-state:custom-generator", case("a rejected instantiation changed the raw storage", json!({"error": e})));
+                        }
+                        if !occupied && init_ok && !host_missing && target.is_some() {
+                            ctx.violation("c11:stored-code-cannot-be-instantiated:custom-generator", case("instantiation at a free address with a succeeding init was rejected", json!({"error": e, "address": target})));
+                        }
+                    }
+                }
+                // the records of all contracts that were live before are intact
+                for (a, rec) in &st.live {
+                    match app.contract_data(&Addr::unchecked(a)) {
+                        Ok(cd) => {
+                            let got = (cd.code_id, cd.creator.to_string(), cd.admin.map(|x| x.to_string()), cd.label.clone());
+                            if got != *rec {
+                                ctx.violation("c11:live-contract-record-changed", case("the record of an existing contract changed", json!({"address": a, "before": format!("{:?}", rec), "after": format!("{:?}", got)})));
+                            }
+                        }
+                        Err(e) => ctx.violation("c11:live-contract-record-changed", case("the record of an existing contract disappeared", json!({"address": a, "error": e.to_string()}))),
+                    }
+                }
+            }
+        }
+        sequences += next.len() as u64;
+        frontier = next;
+        if ctx.vio_count.load(std::sync::atomic::Ordering::Relaxed) > 0 {
+            break;
+        }
+    }
+    json!({"depth": depth, "alphabet": alpha.iter().map(|o| format!("{:?}", o)).collect::<Vec<_>>(), "steps": steps, "accepted_sequences": sequences, "steps_targeting_an_occupied_address": collisions, "accepted": accepted, "distinct_states": distinct.len(),
+        "generator": "unsalted: pool[(code_id + instance_id) % 2]; salted: pool[1 + salt % 2] (three addresses in all)"})
 }
 
 pub fn replay_c11(ctx: &Ctx, case: &Value) {
